@@ -601,6 +601,18 @@ def coq_tree(t):
     if t[0] == "if":
         return "(DIf [%s] %s %s)" % ("; ".join("(%s, %s)" % ("true" if n else "false", a) for n, a in t[1]), coq_tree(t[2]), coq_tree(t[3]))
     return "(DAdobe [%s] %s)" % ("; ".join("(%d, %s)" % (v, coq_tree(x)) for v, x in t[1]), coq_tree(t[2]))
+# next_marker / first_marker: the statement shapes the scanner model mirrors
+nmk = func_body(jdm, "next_marker", "jdmarker.c")
+for pat, what in [(r"while\s*\(\s*c\s*!=\s*0xFF\s*\)\s*\{\s*cinfo->marker->discarded_bytes\+\+", "garbage loop counting discarded_bytes"),
+                  (r"do\s*\{\s*INPUT_BYTE\s*\(\s*cinfo\s*,\s*c\s*,\s*return FALSE\s*\)\s*;\s*\}\s*while\s*\(\s*c\s*==\s*0xFF\s*\)", "fill-byte loop"),
+                  (r"if\s*\(\s*c\s*!=\s*0\s*\)\s*break", "marker test"),
+                  (r"cinfo->marker->discarded_bytes\s*\+=\s*2", "stuffed zero counts 2"),
+                  (r"WARNMS2\s*\(\s*cinfo\s*,\s*JWRN_EXTRANEOUS_DATA\s*,\s*cinfo->marker->discarded_bytes\s*,\s*c\s*\)", "JWRN_EXTRANEOUS_DATA report")]:
+    if not re.search(pat, nmk):
+        die("jdmarker.c: next_marker: '%s' is gone" % what)
+fmk = func_body(jdm, "first_marker", "jdmarker.c")
+if not re.search(r"if\s*\(\s*c\s*!=\s*0xFF\s*\|\|\s*c2\s*!=\s*\(int\)\s*M_SOI\s*\)\s*ERREXIT2\s*\(\s*cinfo\s*,\s*JERR_NO_SOI", fmk):
+    die("jdmarker.c: first_marker SOI test changed")
 
 
 def zl(xs):
